@@ -13,14 +13,14 @@ import (
 func init() {
 	register(&PropRules{
 		ID:      "C05",
-		Explain: "The saslauthd server fails closed — structural part, on every CFG path of sasl.(*Server).handleConnection and the codec: (C05.1) the callback is invoked at most once, outside any loop, only under req.Decode(conn)==nil and with the four decoded fields; (C05.2) exactly one resp.Encode(conn) on every path, on the connection itself, and conn.Close is deferred before any exit; (C05.3) at the Encode call resp.Result is the constant false, or the callback's first result under callback err==nil; (C05.4) every reply is decodable: the part handed to the length-prefix encoder by Response.Encode is bounded by the limit the decoders enforce (MaxRequestLength); (C05.5) vocabulary agreement: Encode writes \"OK\"/\"NO\" [+ \" \" + message], Decode maps exactly \"OK\"→true, \"NO\"→false, anything else → error, and takes the message from index 3; (C05.6) connection ownership: Run starts one goroutine per accepted connection with that connection, the handler writes no shared state, Server fields are written only by the constructors; (C05.7) the decoder's unproven bounds checks are exactly the hand-discharged ones. The C reader's side of C05.5 is decided by C20/C13.4. Round 3: the reply is not written under a connection deadline armed before req.Decode or the callback ran (C05.2); the decode loop reaches Scan() only with the part counter below len(parts) (C13.1 shared).",
+		Explain: "The saslauthd server fails closed — structural part, on every CFG path of sasl.(*Server).handleConnection and the codec: (C05.1) the callback is invoked at most once, outside any loop, only under req.Decode(conn)==nil and with the four decoded fields; (C05.2) exactly one resp.Encode(conn) on every path, on the connection itself, and conn.Close is deferred before any exit; (C05.3) at the Encode call resp.Result is the constant false, or the callback's first result under callback err==nil; (C05.4) every reply is decodable: the part handed to the length-prefix encoder by Response.Encode is bounded by the limit the decoders enforce (MaxRequestLength); (C05.5) vocabulary agreement: Encode writes \"OK\"/\"NO\" [+ \" \" + message], Decode maps exactly \"OK\"→true, \"NO\"→false, anything else → error, and takes the message from index 3; (C05.6) connection ownership: Run starts one goroutine per accepted connection with that connection, the handler writes no shared state, Server fields are written only by the constructors; (C05.7) the decoder's unproven bounds checks are exactly the hand-discharged ones. The C reader's side of C05.5 is decided by C20/C13.4. Round 3: the reply is not written under a connection deadline armed before req.Decode or the callback ran (C05.2); the decode loop reaches Scan() only with the part counter below len(parts) (C13.1 shared). Round 5: decoder completeness (C05.1, rule instance shared with C13.1): the frame decoder returns nil only if every one of the len(parts) requested parts was filled from the stream — the part counter starts at 0, every iteration that goes round again stored exactly one part at the counter and advanced it by one, and every exit that may report success knows that very counter >= len(parts); decided for the bufio.Scanner form and for a decoder built on io.ReadFull / io.ReadAtLeast / binary.Read (per part: two length bytes read completely, error checked; limit before the payload; exactly that many bytes read completely, error checked; no read once all parts are stored).",
 		Undec:   []string{"fragmentation and timing behaviour of bufio.Scanner and the socket (run-time)", "actual concurrent executions", "the compiled PAM module's run-time behaviour (its source is C20)"},
 		Run:     runC05,
 		Floors:  map[string]int{"C05.1": 1, "C05.2": 2, "C05.3": 1, "C05.4": 1, "C05.5": 2, "C05.6": 2},
 	})
 	register(&PropRules{
 		ID:      "C13",
-		Explain: "saslauthd wire codec — structural part: (C13.1) framing shape: the encoder writes, per part, a buffer of 2+len(part) bytes whose first two bytes are BigEndian.PutUint16(len(part)) of the same part followed by its bytes, parts over 65535 are refused; the split function reads the length with BigEndian.Uint16(data[0:2]), refuses lengths over MaxRequestLength before returning any token, returns a token only when it is data[0:strlen+2] with advance == strlen+2 and enough data is present, and answers 'need more data' (0,nil,nil) only when not at EOF (or at EOF with no data left); the decoder strips exactly the 2 length bytes; (C13.2) per-field limits: each of the four request fields is refused by the encoder exactly when len > MaxRequestLength (= 256, pinned), placed at its own index, and the decoder refuses empty login/password; (C13.3) response grammar agreement (= C05.5) and the bounded reply (= C05.4); (C13.4) Go ↔ C agreement is decided by the C-side engine (C20: field order, htons, 256-byte clipping). Round 3: Scan() only while a part is missing (C13.1); every decoding entry point (Decode, Unmarshal) delegates to Decode over the whole input or is itself subject to the decode rules (C13.2/C13.3). Round 4: the encoder is accepted in two equally strict forms (a buffer and a Write per part, or appending length and bytes of every part to one buffer that is written once with the error checked); Request.Encode hands over exactly [Login, Password, Service, Realm] and the decoder assigns each field its own part.",
+		Explain: "saslauthd wire codec — structural part: (C13.1) framing shape: the encoder writes, per part, a buffer of 2+len(part) bytes whose first two bytes are BigEndian.PutUint16(len(part)) of the same part followed by its bytes, parts over 65535 are refused; the split function reads the length with BigEndian.Uint16(data[0:2]), refuses lengths over MaxRequestLength before returning any token, returns a token only when it is data[0:strlen+2] with advance == strlen+2 and enough data is present, and answers 'need more data' (0,nil,nil) only when not at EOF (or at EOF with no data left); the decoder strips exactly the 2 length bytes; (C13.2) per-field limits: each of the four request fields is refused by the encoder exactly when len > MaxRequestLength (= 256, pinned), placed at its own index, and the decoder refuses empty login/password; (C13.3) response grammar agreement (= C05.5) and the bounded reply (= C05.4); (C13.4) Go ↔ C agreement is decided by the C-side engine (C20: field order, htons, 256-byte clipping). Round 3: Scan() only while a part is missing (C13.1); every decoding entry point (Decode, Unmarshal) delegates to Decode over the whole input or is itself subject to the decode rules (C13.2/C13.3). Round 4: the encoder is accepted in two equally strict forms (a buffer and a Write per part, or appending length and bytes of every part to one buffer that is written once with the error checked); Request.Encode hands over exactly [Login, Password, Service, Realm] and the decoder assigns each field its own part. Round 5: the frame decoder is decided in two forms — the scanner form (rules as before, plus: the value compared with len(parts) on a success exit is the number of parts stored, by induction over the loop) and a reader form without bufio.Scanner (c131decReader: the stream is taken only through io.ReadFull / io.ReadAtLeast / binary.Read on the reader itself; per part a complete read of exactly two length bytes, the big-endian length known to be <= MaxRequestLength — and not limited below it — before the payload is read, a complete read of exactly that many bytes, both errors nil before the part is stored; parts stored at consecutive indices from 0; nil only when the counter reached len(parts); no read once all parts are stored, none before or after the loop).",
 		Undec:   []string{"round-trip equality for every byte string (value level)", "re-encode == consumed bytes", "independence from read fragmentation (a property of bufio.Scanner executions)"},
 		Run:     runC13,
 		Floors:  map[string]int{"C13.1": 3, "C13.2": 2},
@@ -188,6 +188,7 @@ func runC05(c *an.Ctx, p *an.Prog, thorough bool) {
 		c.Check(okDefer, "C05.2", fnKey(hc)+"|close-deferred-first", p.Pos(hc.Pos()), "defer conn.Close() is the first call of the handler", "conn.Close() is not deferred before the first call of the handler (a panic or early return would leak the connection)")
 	}
 	c054(c, p, "C05.4")
+	c131dec(c, p, "C05.1")
 	saslScannerCapacity(c, p, "C05.1")
 	c055(c, p, "C05.5")
 	c056(c, p)
@@ -458,7 +459,7 @@ func c056(c *an.Ctx, p *an.Prog) {
 func runC13(c *an.Ctx, p *an.Prog, thorough bool) {
 	c131enc(c, p)
 	c131split(c, p)
-	c131dec(c, p)
+	c131dec(c, p, "C13.1")
 	saslScannerCapacity(c, p, "C13.1")
 	c132(c, p)
 	c055(c, p, "C13.3")
@@ -881,6 +882,12 @@ func s0T(v ssa.Value) string {
 }
 
 func c131split(c *an.Ctx, p *an.Prog) {
+	if dec := p.Func("/sasl", "decodeLengthEncodedStrings"); dec != nil && len(dec.Blocks) > 0 && decoderForm(dec) == "reader" {
+		// no scanner, hence no split function: what the split function guarantees per token (big-endian length from the
+		// first two bytes, limit before any payload, exactly strlen bytes, truncation is an error) is demanded of the
+		// reads themselves by c131decReader (key …|read-frame)
+		return
+	}
 	fn := p.Func("/sasl", "scanLengthEncodedString")
 	if !need(c, "C13.1", fn, "sasl.scanLengthEncodedString") {
 		return
@@ -988,11 +995,55 @@ func c131split(c *an.Ctx, p *an.Prog) {
 	c.Check(len(bad) == 0 && nTok >= 1 && nMore >= 2 && nErr >= 3, "C13.1", fnKey(fn)+"|split", p.Pos(fn.Pos()), fmt.Sprintf("%d token returns (advance==len(token)==strlen+2, strlen<=256, enough data), %d need-more-data returns (only when !atEOF or nothing left), %d error returns", nTok, nMore, nErr), strings.Join(uniqS(bad), "; "))
 }
 
-func c131dec(c *an.Ctx, p *an.Prog) {
+// decoderForm: how the frame decoder takes bytes off the stream. "scanner": through a bufio.Scanner (the pinned form,
+// rules c131split + c131decScanner); "reader": no scanner, the reader itself is read with the complete-read primitives
+// io.ReadFull / io.ReadAtLeast / binary.Read (rules c131decReader); "" when it is neither (then nothing is decided and
+// the check says so).
+func decoderForm(fn *ssa.Function) string {
+	scanner, reads := false, false
+	for _, in := range an.DeepInstrs(fn) {
+		ci, ok := in.(ssa.CallInstruction)
+		if !ok {
+			continue
+		}
+		n := an.CalleeName(ci)
+		switch {
+		case n == "bufio.NewScanner" || strings.HasPrefix(n, "(*bufio.Scanner)."):
+			scanner = true
+		case streamReadFns[n]:
+			reads = true
+		}
+	}
+	switch {
+	case scanner:
+		return "scanner"
+	case reads:
+		return "reader"
+	}
+	return ""
+}
+
+// c131dec — decoder completeness, one rule function registered under C13.1 and C05.1 (C05: "the reply is positive only if
+// the request decoded completely", "the callback is called only with exactly the four decoded fields"): the frame
+// decoder returns nil only if every one of the len(parts) requested parts was filled from the stream. C05's handler
+// rules rely on `req.Decode(conn) == nil`; this is what makes that test mean "decoded completely". Decided exactly for
+// both forms of the decoder (decoderForm).
+func c131dec(c *an.Ctx, p *an.Prog, rule string) {
 	fn := p.Func("/sasl", "decodeLengthEncodedStrings")
-	if !need(c, "C13.1", fn, "sasl.decodeLengthEncodedStrings") {
+	if !need(c, rule, fn, "sasl.decodeLengthEncodedStrings") {
 		return
 	}
+	switch decoderForm(fn) {
+	case "scanner":
+		c131decScanner(c, p, fn, rule)
+	case "reader":
+		c131decReader(c, p, fn, rule)
+	default:
+		c.Undecided(rule, fnKey(fn)+"|strip-and-count", p.Pos(fn.Pos()), "UNRESOLVED: the frame decoder neither cuts the stream with a bufio.Scanner nor reads it with io.ReadFull / io.ReadAtLeast / binary.Read: whether nil is returned only after all parts were filled cannot be decided")
+	}
+}
+
+func c131decScanner(c *an.Ctx, p *an.Prog, fn *ssa.Function, rule string) {
 	var bad []string
 	// the scanner uses the split function and each token is stored minus 2 bytes at consecutive indices
 	usesSplit := false
@@ -1063,10 +1114,10 @@ func c131dec(c *an.Ctx, p *an.Prog) {
 			if a.Op == "==" && a.B.IsConst("nil") && a.A.IsCallTo("(*bufio.Scanner).Err") {
 				okErr = true
 			}
-			if a.Op == ">=" && a.B != nil && a.B.IsCallTo("builtin len") {
-				okCount = true
+			if (a.Op == ">=" || a.Op == "==") && a.B != nil && a.B.IsCallTo("builtin len") {
+				okCount = true // (i == len(parts) says i >= len(parts); which value is compared is decided by partsCountRule below)
 			}
-			if a.Op == "<=" && a.A.IsCallTo("builtin len") {
+			if (a.Op == "<=" || a.Op == "==") && a.A.IsCallTo("builtin len") {
 				if lc, _ := a.A.CallOf(); lc.Args[0].K == s.T(fn.Params[1]).K {
 					okCount = true // len(parts) <= i with the loop counter folded to a constant on this path
 				}
@@ -1105,7 +1156,20 @@ func c131dec(c *an.Ctx, p *an.Prog) {
 		}
 	})
 	bad = append(bad, scanOnlyWhileNotFull(fn)...)
-	c.Check(len(bad) == 0 && nStore == 1 && nOK > 0, "C13.1", fnKey(fn)+"|strip-and-count", p.Pos(fn.Pos()), "tokens from the split function, stored minus exactly 2 bytes; success only with all parts and no scanner error", strings.Join(uniqS(bad), "; "))
+	// the count, exactly (the same induction as in the reader form): the value compared with len(parts) on a success exit
+	// is the number of parts stored — `if i+1 < len(parts)` also "compares the counter with len(parts)"
+	if len(fn.Params) == 2 {
+		if pc, why := findPartCounter(fn, fn.Params[1]); why != "" {
+			bad = append(bad, "UNRESOLVED: "+why)
+		} else {
+			cb, nIter, nExit := partsCountRule(fn, pc, fn.Params[1])
+			bad = append(bad, cb...)
+			if nIter == 0 || nExit == 0 {
+				bad = append(bad, "no iteration / no success exit of the decode loop found")
+			}
+		}
+	}
+	c.Check(len(bad) == 0 && nStore == 1 && nOK > 0, rule, fnKey(fn)+"|strip-and-count", p.Pos(fn.Pos()), "tokens from the split function, stored minus exactly 2 bytes; success only with all parts and no scanner error", strings.Join(uniqS(bad), "; "))
 }
 
 // sameScanner: t is the scanner of this decoder — the object that was given the split function on this path.
@@ -1456,4 +1520,610 @@ func decodeEntryPoints(c *an.Ctx, p *an.Prog, rule, typ string) []*ssa.Function 
 	// a decoder of its own: it has to satisfy the same rules (reported under its own key)
 	c.OK(rule, fnKey(un)+"|own-decoder", p.Pos(un.Pos()), "Unmarshal does not delegate to Decode ("+why+"): the decode rules are applied to it as well")
 	return append(own, un)
+}
+
+// ---- the frame decoder in reader form (no bufio.Scanner; complete reads of the reader itself) ----
+
+// streamReadFns: the library primitives that fill the whole buffer or fail. A decoder that takes every byte through
+// them is independent of how the stream is fragmented into reads, and it consumes exactly the bytes it asks for.
+var streamReadFns = map[string]bool{"io.ReadFull": true, "io.ReadAtLeast": true, "encoding/binary.Read": true}
+
+// streamUse: the event hands the stream (the reader parameter) to somebody.
+func streamUse(e *an.Event, readerK string) bool {
+	if e.Kind != "call" && e.Kind != "go" && e.Kind != "defer" {
+		return false
+	}
+	for _, a := range e.Args {
+		if a != nil && a.Contains(func(x *an.Term) bool { return x.K == readerK }) {
+			return true
+		}
+	}
+	return false
+}
+
+// streamReads: the complete reads of the reader performed so far on the path, in order.
+func streamReads(s *an.PathState, readerK string) []*an.Event {
+	var out []*an.Event
+	for i := range s.Events {
+		e := &s.Events[i]
+		if e.Kind == "call" && !e.Deferred && streamReadFns[e.Callee] && len(e.Args) >= 2 && e.Args[0] != nil && e.Args[0].K == readerK {
+			out = append(out, e)
+		}
+	}
+	return out
+}
+
+// storesInto: the number of stores into cells of the slice parameter on the path.
+func storesInto(s *an.PathState, param *ssa.Parameter) int {
+	n := 0
+	for _, e := range s.Events {
+		if e.Kind == "store" && e.Args[0].Op == "indexaddr" && e.Args[0].Args[0].K == "p:"+param.Name() {
+			n++
+		}
+	}
+	return n
+}
+
+// counterBelowLen / counterReachedLen: the facts of the path compare the value with key xk with len(param).
+func counterBelowLen(s *an.PathState, xk string, param *ssa.Parameter) bool {
+	isLen := func(t *an.Term) bool { return isLenOfParam(t, param) }
+	for _, a := range s.Atoms {
+		if a.A == nil || a.B == nil {
+			continue
+		}
+		if (a.Op == "<" || a.Op == "!=") && a.A.K == xk && isLen(a.B) {
+			return true
+		}
+		if (a.Op == ">" || a.Op == "!=") && isLen(a.A) && a.B.K == xk {
+			return true
+		}
+	}
+	return false
+}
+
+func counterReachedLen(s *an.PathState, xk string, param *ssa.Parameter) bool {
+	isLen := func(t *an.Term) bool { return isLenOfParam(t, param) }
+	for _, a := range s.Atoms {
+		if a.A == nil || a.B == nil {
+			continue
+		}
+		if (a.Op == ">=" || a.Op == "==") && a.A.K == xk && isLen(a.B) {
+			return true
+		}
+		if (a.Op == "<=" || a.Op == "==") && isLen(a.A) && a.B.K == xk {
+			return true
+		}
+	}
+	return false
+}
+
+// partCounter finds the loop and the counter of a frame decoder: the one loop of fn, the one statement of fn that stores
+// into parts, and the header phi its index is (idx == phi: `parts[i] = …; i++`) or is one above (`for i := range parts`,
+// which go/ssa spells phi+1 with the phi starting at -1). why != "" when the decoder does not have that shape.
+type partCounter struct {
+	h   *ssa.BasicBlock
+	st  *ssa.Store
+	idx ssa.Value // the index of the store = the number of parts stored before this iteration
+	phi *ssa.Phi
+	rng bool // range form (idx == phi+1)
+}
+
+func findPartCounter(fn *ssa.Function, partsP *ssa.Parameter) (pc partCounter, why string) {
+	hs := loopHeaders(fn)
+	if len(hs) != 1 {
+		return pc, fmt.Sprintf("%d loops in the frame decoder (one loop over the parts expected)", len(hs))
+	}
+	pc.h = hs[0]
+	n := 0
+	for _, b := range fn.Blocks {
+		for _, in := range b.Instrs {
+			if st, ok := in.(*ssa.Store); ok {
+				if ia, ok := st.Addr.(*ssa.IndexAddr); ok && ia.X == ssa.Value(partsP) {
+					n++
+					pc.st = st
+				}
+			}
+		}
+	}
+	if n != 1 {
+		return pc, fmt.Sprintf("%d statements of the frame decoder store into parts (exactly one expected: parts[counter] = the part just read)", n)
+	}
+	ia := pc.st.Addr.(*ssa.IndexAddr)
+	switch x := ia.Index.(type) {
+	case *ssa.Phi:
+		if x.Block() == pc.h {
+			pc.phi, pc.idx = x, x
+		}
+	case *ssa.BinOp:
+		if ph, ok := x.X.(*ssa.Phi); ok && x.Op == token.ADD && x.Block() == pc.h && ph.Block() == pc.h {
+			if k, ok := x.Y.(*ssa.Const); ok && k.Value != nil && k.Int64() == 1 {
+				pc.phi, pc.idx, pc.rng = ph, x, true
+			}
+		}
+	}
+	if pc.phi == nil || !pc.h.Dominates(pc.st.Block()) || !blockReaches(pc.st.Block(), pc.h) {
+		return pc, "the index at which a decoded part is stored is not the loop's part counter"
+	}
+	return pc, ""
+}
+
+// cur: the number of parts stored so far on a path that started at the loop header.
+func (pc partCounter) cur(s *an.PathState, partsP *ssa.Parameter) (key string, stores int) {
+	key = s.T(pc.idx).K
+	stores = storesInto(s, partsP)
+	for i := 0; i < stores; i++ {
+		key = "(" + key + " + c:1)"
+	}
+	return
+}
+
+// partsCountRule — "nil is returned only when all len(parts) parts were stored", by induction over the loop:
+//   - the counter starts at the first part (0);
+//   - every iteration that goes round again has stored exactly one part, at the counter, and advances the counter by one —
+//     so at the loop header the counter IS the number of parts stored, at consecutive indices from 0;
+//   - every exit that may report success (nil, or an error value not known to be non-nil) knows
+//     counter (+1 if this last, partial iteration stored a part) >= len(parts) — the counter itself, not a neighbour of it:
+//     `if i+1 < len(parts)` after a loop that leaves with i parts stored accepts a message that lacks its last part;
+//   - an exit that never entered the loop may report success only under len(parts) == 0.
+func partsCountRule(fn *ssa.Function, pc partCounter, partsP *ssa.Parameter) (bad []string, nIter, nExit int) {
+	var first ssa.Instruction
+	for _, in := range pc.h.Instrs {
+		if _, ok := in.(*ssa.Phi); !ok {
+			first = in
+			break
+		}
+	}
+	nInit := 0
+	an.EnumPaths(fn, nil, first, func(s *an.PathState) {
+		nInit++
+		want := "0"
+		if pc.rng {
+			want = "-1"
+		}
+		if !s.T(pc.phi).IsConst(want) {
+			bad = append(bad, "the part counter does not start at the first part (it starts at "+s.T(pc.phi).K+")")
+		}
+		if n := storesInto(s, partsP); n != 0 {
+			bad = append(bad, "a part is stored before the loop over the parts")
+		}
+	})
+	if nInit == 0 {
+		bad = append(bad, "the loop over the parts is not reached")
+	}
+	an.EnumPathsTo(fn, pc.h, nil, pc.h, func(s *an.PathState) {
+		if s.StopBlock != nil {
+			nIter++
+			if n := storesInto(s, partsP); n != 1 {
+				bad = append(bad, fmt.Sprintf("an iteration of the decode loop goes on to the next part having stored %d parts (exactly the part it read must be stored; path %s)", n, s.BlockPath()))
+			}
+			if in := s.PhiIn(pc.phi); in == nil || in.K != "("+s.T(pc.phi).K+" + c:1)" {
+				bad = append(bad, "the part counter does not advance by exactly one per stored part (path "+s.BlockPath()+")")
+			}
+			return
+		}
+		kind, r := exitKind(s)
+		if kind == "error" || kind == "maybe" && an.KnownNonNil(r) {
+			return // (a package-level sentinel error that is never reassigned is as non-nil as a fresh errors.New)
+		}
+		if kind == "panic" {
+			bad = append(bad, "the frame decoder can panic (path "+s.BlockPath()+")")
+			return
+		}
+		nExit++
+		k, n := pc.cur(s, partsP)
+		if n > 1 {
+			bad = append(bad, "two parts are stored in one iteration (path "+s.BlockPath()+")")
+		}
+		if !counterReachedLen(s, k, partsP) {
+			bad = append(bad, "success with fewer than len(parts) parts: nil is returned on a path that stored "+k+" parts without that number being known to have reached len(parts) — a message that ends early is accepted with the missing parts empty (path "+s.BlockPath()+")")
+		}
+	})
+	// exits that never reach the loop
+	an.EnumPaths(fn, nil, nil, func(s *an.PathState) {
+		for _, b := range s.Blocks {
+			if b == pc.h {
+				return
+			}
+		}
+		if kind, r := exitKind(s); kind == "error" || kind == "panic" || kind == "maybe" && an.KnownNonNil(r) {
+			return
+		}
+		if !counterReachedLen(s, "c:0", partsP) {
+			bad = append(bad, "success without entering the loop over the parts and without len(parts) == 0 (path "+s.BlockPath()+")")
+		}
+	})
+	return uniqS(bad), nIter, nExit
+}
+
+// u16Wide strips conversions of a 16-bit unsigned value to a wider integer type (they cannot change the value).
+func u16Wide(t *an.Term) *an.Term {
+	for t != nil && t.Op == "numconv" && len(t.Args) == 1 {
+		switch t.Aux {
+		case "int", "int32", "int64", "uint", "uint32", "uint64", "uintptr":
+			t = t.Args[0]
+		default:
+			return t
+		}
+	}
+	return t
+}
+
+// frameRead is one complete read of the stream, as the per-part protocol sees it.
+type frameRead struct {
+	name string
+	args []*an.Term
+	res  *an.Term
+}
+
+func (r frameRead) errNil(s *an.PathState) bool {
+	if r.res == nil {
+		return false
+	}
+	if r.name == "encoding/binary.Read" {
+		return callErrNilSingle(s, r.res) || s.IsNil(r.res)
+	}
+	return extractNil(s, r.res, 1)
+}
+
+// headerShape: the read fills exactly the two length bytes: io.ReadFull(reader, b) / io.ReadAtLeast(reader, b, 2) with b
+// a local 2-byte buffer, or binary.Read(reader, binary.BigEndian, &n) with n a local uint16.
+func (r frameRead) headerShape() string {
+	is2 := func(b *an.Term) bool {
+		return b != nil && b.Op == "make" && b.Aux == "slice" && len(b.Args) == 1 && b.Args[0].IsConst("2")
+	}
+	switch r.name {
+	case "io.ReadFull":
+		if len(r.args) == 2 && is2(r.args[1]) {
+			return ""
+		}
+	case "io.ReadAtLeast":
+		if len(r.args) == 3 && is2(r.args[1]) && r.args[2].IsConst("2") {
+			return ""
+		}
+	case "encoding/binary.Read":
+		if len(r.args) == 3 && r.args[2] != nil && r.args[2].Op == "alloc" && r.args[2].Aux == "*uint16" {
+			if r.args[1] == nil || !strings.Contains(r.args[1].K, "encoding/binary.BigEndian") {
+				return "the length of a part is not read as a big-endian value"
+			}
+			return ""
+		}
+	}
+	return "the first read of a part does not fill exactly the two length bytes (a local 2-byte buffer read completely, or binary.Read into a uint16)"
+}
+
+// isLength: t is the 16-bit length this header read delivered (up to widening conversions): BigEndian.Uint16 of exactly
+// the two bytes read, or the uint16 variable binary.Read filled, read after that call.
+func (r frameRead) isLength(s *an.PathState, t *an.Term) bool {
+	t = u16Wide(t)
+	if t == nil {
+		return false
+	}
+	if r.name == "encoding/binary.Read" {
+		v := r.args[2]
+		return t.Op == "load" && len(t.Args) == 1 && t.Args[0] != nil && t.Args[0].K == v.K && strings.HasPrefix(t.K, "load("+v.K+")#")
+	}
+	if !t.IsCallTo("(encoding/binary.bigEndian).Uint16") || t.Op != "call" || len(t.Args) != 2 {
+		return false
+	}
+	b, src := r.args[1], t.Args[1]
+	if src == nil || !strings.Contains(t.Args[0].K, "encoding/binary.BigEndian") {
+		return false
+	}
+	whole := src.K == b.K || lowZero(src) && src.Args[0].K == b.K && (src.Args[2] == nil || src.Args[2].IsConst("2")) && src.Args[3] == nil
+	if !whole {
+		return false
+	}
+	// the call comes after the read on this path
+	seen := false
+	for i := range s.Events {
+		e := &s.Events[i]
+		if e.Res != nil && e.Res.K == r.res.K {
+			seen = true
+		}
+		if e.Res != nil && e.Res.K == t.K {
+			return seen
+		}
+	}
+	return false
+}
+
+// lengthInterval: what the facts of the path say about the length delivered by this header read.
+func (r frameRead) lengthInterval(s *an.PathState) (lo, hi int64) {
+	lo, hi = 0, 65535
+	for _, f := range s.Atoms {
+		if f.B == nil || !r.isLength(s, f.A) {
+			continue
+		}
+		v, ok := f.B.ConstInt()
+		if !ok {
+			continue
+		}
+		switch f.Op {
+		case "==":
+			if v > lo {
+				lo = v
+			}
+			if v < hi {
+				hi = v
+			}
+		case "<":
+			if v-1 < hi {
+				hi = v - 1
+			}
+		case "<=":
+			if v < hi {
+				hi = v
+			}
+		case ">":
+			if v+1 > lo {
+				lo = v + 1
+			}
+		case ">=":
+			if v > lo {
+				lo = v
+			}
+		}
+	}
+	return
+}
+
+// payloadBuf: the buffer a payload read fills and why it is not acceptable: exactly strlen bytes — a fresh
+// make([]byte, strlen), or the first strlen bytes b[:strlen] of a local buffer that holds a limit-sized part.
+func (r frameRead) payloadBuf(s *an.PathState, hdr frameRead, limit int64) (*an.Term, string) {
+	var b *an.Term
+	switch r.name {
+	case "io.ReadFull":
+		if len(r.args) == 2 {
+			b = r.args[1]
+		}
+	case "io.ReadAtLeast":
+		if len(r.args) == 3 {
+			b = r.args[1]
+			m := r.args[2]
+			lenOfB := m.IsCallTo("builtin len") && m.Op == "call" && len(m.Args) == 1 && m.Args[0].K == b.K
+			if !lenOfB && !hdr.isLength(s, m) {
+				return b, "io.ReadAtLeast is asked for " + m.K + " bytes, not for the length of the part"
+			}
+		}
+	case "encoding/binary.Read":
+		if len(r.args) == 3 {
+			b = r.args[2]
+		}
+	}
+	if b == nil {
+		return nil, "the payload read has an unexpected shape"
+	}
+	switch {
+	case b.Op == "make" && b.Aux == "slice" && len(b.Args) == 1 && hdr.isLength(s, b.Args[0]):
+		return b, ""
+	case lowZero(b) && b.Args[2] != nil && b.Args[3] == nil && hdr.isLength(s, b.Args[2]) && b.Args[0].Op == "make" && b.Args[0].Aux == "slice" && len(b.Args[0].Args) == 1:
+		if n, ok := b.Args[0].Args[0].ConstInt(); ok && n >= limit {
+			return b, ""
+		}
+	}
+	return b, "the payload read does not fill a buffer of exactly the announced length — the big-endian 16-bit value of the two length bytes just read (buffer: " + b.K + ")"
+}
+
+// c131decReader — the frame decoder built on complete reads. Two obligations under the rule id given:
+//
+// …|read-frame (what the split function guarantees in the scanner form), for every read of the stream, with the facts
+// known when it is issued:
+//   - the stream is taken only through io.ReadFull / io.ReadAtLeast / binary.Read on the reader parameter itself;
+//   - the first read of an iteration fills exactly the two length bytes (headerShape);
+//   - the second read is issued only after the first one's error was found nil, with the length = the big-endian 16-bit
+//     value of exactly those two bytes, known to be <= MaxRequestLength *before* the read (and not limited below it: 256
+//     is a legal length), into a buffer of exactly that length (payloadBuf); there is no third read;
+//   - the part is stored only after both errors were found nil (a clean EOF before the first byte and an EOF inside a
+//     part are both errors of a complete read, so neither ever reaches the store), and the value stored is the string of
+//     exactly the payload buffer — or "" after a header that announced length 0 and no payload read.
+//
+// …|read-and-count (completeness, shared with C05): partsCountRule, and "no read for a further part after the last part was
+// stored" (scanOnlyWhileNotFull of the scanner form): every read is issued inside the loop with the number of parts stored so
+// far known to be below len(parts) — compared before the read in the same iteration, or by every iteration that goes
+// round again (the pinned `i++; if i >= len(parts) { break }`); nothing is read before the loop or after it.
+func c131decReader(c *an.Ctx, p *an.Prog, fn *ssa.Function, rule string) {
+	keyF, keyC := fnKey(fn)+"|read-frame", fnKey(fn)+"|read-and-count"
+	pos := p.Pos(fn.Pos())
+	limit := int64(256)
+	if pk := p.SSAPkg("/sasl"); pk != nil {
+		if k, ok := pk.Members["MaxRequestLength"].(*ssa.NamedConst); ok {
+			limit = k.Value.Int64()
+		}
+	}
+	if len(fn.Params) != 2 || fn.Signature.Results().Len() != 1 {
+		c.Undecided(rule, keyC, pos, "UNRESOLVED: the frame decoder is not func(reader, parts) error")
+		return
+	}
+	readerK, partsP := "p:"+fn.Params[0].Name(), fn.Params[1]
+	pc, why := findPartCounter(fn, partsP)
+	if why != "" {
+		c.Undecided(rule, keyC, pos, "UNRESOLVED: "+why)
+		return
+	}
+	var badF, badC []string
+	foreign := func(s *an.PathState) {
+		for i := range s.Events {
+			e := &s.Events[i]
+			if streamUse(e, readerK) && !(e.Kind == "call" && !e.Deferred && streamReadFns[e.Callee] && len(e.Args) >= 2 && e.Args[0].K == readerK) {
+				badF = append(badF, "the stream is handed to "+shortName(e.Callee)+": only complete reads of the reader itself (io.ReadFull, io.ReadAtLeast, binary.Read) are decided")
+			}
+		}
+	}
+	// the count
+	cb, nIter, nExit := partsCountRule(fn, pc, partsP)
+	badC = append(badC, cb...)
+	an.EnumPathsTo(fn, pc.h, nil, pc.h, foreign)
+	for _, in := range pc.h.Instrs {
+		if _, isPhi := in.(*ssa.Phi); !isPhi {
+			an.EnumPaths(fn, nil, in, foreign) // on the way to the loop
+			break
+		}
+	}
+	an.EnumPaths(fn, nil, nil, func(s *an.PathState) {
+		for _, b := range s.Blocks {
+			if b == pc.h {
+				return
+			}
+		}
+		foreign(s)
+	})
+	// every continuing iteration has established that another part is missing (form B of scanOnlyWhileNotFull)
+	formB, nB := true, 0
+	an.EnumPathsTo(fn, pc.h, nil, pc.h, func(s *an.PathState) {
+		if s.StopBlock == nil {
+			return
+		}
+		nB++
+		in := s.PhiIn(pc.phi)
+		if in == nil {
+			formB = false
+			return
+		}
+		k := in.K
+		if pc.rng {
+			k = "(" + k + " + c:1)"
+		}
+		if !counterBelowLen(s, k, partsP) {
+			formB = false
+		}
+	})
+	formB = formB && nB > 0
+	// the reads
+	var names []string
+	for n := range streamReadFns {
+		names = append(names, n)
+	}
+	reads := an.CallsTo(fn, names...)
+	nHdr, nPay := 0, 0
+	for _, rc := range reads {
+		name := an.CalleeName(rc)
+		nA, formA := 0, true
+		an.EnumPathsTo(fn, pc.h, rc, nil, func(s *an.PathState) {
+			args := s.CallArgs(rc)
+			if len(args) < 2 || args[0] == nil || args[0].K != readerK {
+				return // not a read of the stream (a read of some other reader is of no concern here; handing the stream on is caught above)
+			}
+			nA++
+			this := frameRead{name: name, args: args}
+			k, nst := pc.cur(s, partsP)
+			if nst > 0 {
+				badC = append(badC, "the stream is read again after the part of this iteration was stored (path "+s.BlockPath()+")")
+			}
+			if !counterBelowLen(s, k, partsP) {
+				formA = false
+			}
+			prev := streamReads(s, readerK)
+			switch len(prev) {
+			case 0:
+				nHdr++
+				if w := this.headerShape(); w != "" {
+					badF = append(badF, w)
+				}
+			case 1:
+				nPay++
+				hdr := frameRead{name: prev[0].Callee, args: prev[0].Args, res: prev[0].Res}
+				if hdr.headerShape() != "" {
+					return // reported where that read is examined
+				}
+				if !hdr.errNil(s) {
+					badF = append(badF, "the payload is read although the read of the length bytes may have failed (its error is not known to be nil: a truncated length prefix is used; path "+s.BlockPath()+")")
+				}
+				_, w := this.payloadBuf(s, hdr, limit)
+				if w != "" {
+					badF = append(badF, w)
+					return
+				}
+				switch _, hi := hdr.lengthInterval(s); {
+				case hi > limit:
+					badF = append(badF, fmt.Sprintf("the payload is read without the announced length being known to be <= MaxRequestLength (%d) at that point: lengths over the limit must be refused before the payload is read (known upper bound: %d; path %s)", limit, hi, s.BlockPath()))
+				case hi < limit:
+					badF = append(badF, fmt.Sprintf("parts longer than %d bytes are refused, the protocol limit is exactly %d", hi, limit))
+				}
+			default:
+				badF = append(badF, fmt.Sprintf("a third read of the stream in one iteration (%s after %d reads): a part is its two length bytes and its payload, nothing else (path %s)", shortName(name), len(prev), s.BlockPath()))
+			}
+		})
+		if nA == 0 {
+			before := 0
+			an.EnumPaths(fn, nil, rc, func(s *an.PathState) {
+				if args := s.CallArgs(rc); len(args) >= 2 && args[0] != nil && args[0].K == readerK {
+					before++
+				}
+			})
+			if before > 0 {
+				badC = append(badC, "the stream is read before the loop over the parts ("+shortName(name)+")")
+			}
+			continue
+		}
+		if formA {
+			continue
+		}
+		if !(formB && inLoop(fn, rc, pc.h)) {
+			badC = append(badC, shortName(name)+" is issued without the number of parts stored being known to be below len(parts): after the last part further bytes are read (bytes beyond the message are consumed, the handler blocks on a client that waits for its reply)")
+		}
+	}
+	// the store
+	nS := 0
+	an.EnumPathsTo(fn, pc.h, pc.st, nil, func(s *an.PathState) {
+		nS++
+		prev := streamReads(s, readerK)
+		v := s.T(pc.st.Val)
+		if len(prev) < 1 || len(prev) > 2 {
+			badF = append(badF, fmt.Sprintf("a part is stored after %d reads of the stream (two length bytes, then the payload; path %s)", len(prev), s.BlockPath()))
+			return
+		}
+		hdr := frameRead{name: prev[0].Callee, args: prev[0].Args, res: prev[0].Res}
+		if hdr.headerShape() != "" {
+			return
+		}
+		if !hdr.errNil(s) {
+			badF = append(badF, "a part is stored although the read of its length bytes may have failed (path "+s.BlockPath()+")")
+		}
+		if len(prev) == 1 {
+			lo, hi := hdr.lengthInterval(s)
+			if !(lo == 0 && hi == 0 && v.IsConst(`""`)) {
+				badF = append(badF, "a part is stored without its payload having been read (only a part of announced length 0 is \"\" without a payload read; path "+s.BlockPath()+")")
+			}
+			return
+		}
+		pay := frameRead{name: prev[1].Callee, args: prev[1].Args, res: prev[1].Res}
+		b, w := pay.payloadBuf(s, hdr, limit)
+		if w != "" {
+			return
+		}
+		if !pay.errNil(s) {
+			badF = append(badF, "a part is stored although the read of its payload may have failed (its error is not known to be nil: a truncated part is accepted; path "+s.BlockPath()+")")
+		}
+		if !(v.Op == "conv" && v.Aux == "string" && len(v.Args) == 1 && v.Args[0].K == b.K) {
+			badF = append(badF, "the part stored is "+v.K+", not the string of exactly the payload buffer "+b.K)
+		}
+	})
+	c.Check(len(badF) == 0 && nHdr > 0 && nPay > 0 && nS > 0, rule, keyF, pos, fmt.Sprintf("every part is read by a complete read of its two length bytes (big-endian), refused over MaxRequestLength before the payload is read, then a complete read of exactly that many bytes; stored only after both reads succeeded (%d read sites)", len(reads)), strings.Join(uniqS(badF), "; "))
+	c.Check(len(badC) == 0 && nIter > 0 && nExit > 0, rule, keyC, pos, "parts are stored at consecutive indices from 0, one per iteration; nil is returned only when the counter reached len(parts); no read is issued once all parts are stored", strings.Join(uniqS(badC), "; "))
+}
+
+// inLoop: the instruction — or the call of fn through which the helper containing it is interpreted — lies inside the loop at h.
+func inLoop(fn *ssa.Function, in ssa.Instruction, h *ssa.BasicBlock) bool {
+	blk := in.Block()
+	if in.Parent() != fn {
+		blk = nil
+		for _, b := range fn.Blocks {
+			for _, x := range b.Instrs {
+				call, ok := x.(*ssa.Call)
+				if !ok {
+					continue
+				}
+				g := call.Common().StaticCallee()
+				if g == nil || !an.Inlinable(g) {
+					continue
+				}
+				for _, y := range an.DeepInstrs(g) {
+					if y == in {
+						blk = b
+					}
+				}
+			}
+		}
+	}
+	return blk != nil && h.Dominates(blk) && blockReaches(blk, h)
 }
